@@ -27,7 +27,7 @@ LEVEL_TEXT = (
     "directory of every generated tree used as module_path the stated equivalences held. Seeded random trees (depth <= 5, prefix-sibling names)."
 )
 LEVEL_NOTE = "Trusts R-SCAN's directory walk (os/pathlib) and the raw networkx graph; x.py beside x/, dotted directory names and a directory named like the root are not generated."
-LEVEL_TEXT += ' Scans with several excluded sibling directories below one parent are included.'
+LEVEL_TEXT += ' Scans with several excluded sibling directories below one parent are included. The same directories are also given with a trailing slash, as pathlib.Path objects and relative to the current working directory (same architecture required).'
 LEVEL_TEXT += ' Trees may contain a package named like the root directory (scanned as module_path). Extra shards scan random projects (a quarter of them wide and deep) under independently drawn options - file exclusions, level limit, kept externals with external exclusions, module_path below the root, module-object entry point - judged by the same deciding steps. Name pools include unusual legal identifiers (non-ASCII, combining marks, U+00B7, case / zero-padding twins, py*/init* names).'
 RULE = (
     "an evaluation = one scan (tree x module_path x entry point) judged by the monitor; non-trivial = module_path differs from root_path "
@@ -217,16 +217,32 @@ def one_tree(tspec, relative_style, acc, rnd, only_mp=None, force_excl=None, for
             mp_abs = os.path.join(root, mp) if mp else root
             get_evaluable_architecture(root, mp_abs)
             plain = HUB.scan_events[-1]
-            for label, (r_arg, m_arg) in {"trailing-slash": (root + "/", mp_abs + "/"), "pathlib": (Path(root), Path(mp_abs)), "mixed": (root + "/", Path(mp_abs))}.items():
+            rel_root = os.path.basename(root)
+            rel_mp = os.path.join(rel_root, mp) if mp else rel_root
+            spellings = {
+                "trailing-slash": (root + "/", mp_abs + "/"),
+                "pathlib": (Path(root), Path(mp_abs)),
+                "mixed": (root + "/", Path(mp_abs)),
+                # relative to the current working directory (the usual spelling in a conftest.py that is run from the project's parent)
+                "relative": (rel_root, rel_mp),
+                "dot-relative": ("./" + rel_root, "./" + rel_mp + "/"),
+                "relative-pathlib": (Path(rel_root), Path(rel_mp)),
+            }
+            for label, (r_arg, m_arg) in spellings.items():
                 c5 = dict(case, mp=mp, spelling=label)
                 HUB.case = c5
+                cwd = os.getcwd()
                 try:
+                    if "relative" in label:
+                        os.chdir(os.path.dirname(root))
                     get_evaluable_architecture(r_arg, m_arg)
                     sv = HUB.scan_events[-1]
                     same = sv.state == plain.state
                 except Exception as e:  # noqa: BLE001
                     same, sv = False, None
                     HUB.violation("C04", f"path-spelling:{label}:raises-{type(e).__name__}", f"root_path/module_path given as {label} raised {e}", {"mp": mp})
+                finally:
+                    os.chdir(cwd)
                 acc.evaluated()
                 acc.count("path_spelling_variants")
                 if sv is not None and not same:
@@ -282,7 +298,7 @@ def floors(acc, tier):
     why = []
     if acc.counters["scans_judged"] < 200:
         why.append(f"only {acc.counters['scans_judged']} scans judged")
-    for c, n in (("subscan_equivalences", 100), ("entry_point_equivalences", 100), ("prefix_sibling_trees", 10), ("via_prefix_statements", 10), ("include_mode_scans", 30), ("sibling_directory_exclusion_scans", 10), ("root_named_package_scans", 20), ("trees_with_symlinked_package", 10), ("symlinked_root_scans", 30), ("regex_exclusion_scans_with_groups_and_backreferences", 10)):
+    for c, n in (("subscan_equivalences", 100), ("entry_point_equivalences", 100), ("prefix_sibling_trees", 10), ("via_prefix_statements", 10), ("include_mode_scans", 30), ("sibling_directory_exclusion_scans", 10), ("root_named_package_scans", 20), ("trees_with_symlinked_package", 10), ("symlinked_root_scans", 30), ("regex_exclusion_scans_with_groups_and_backreferences", 10), ("path_spelling_variants", 100)):
         if acc.counters[c] < n:
             why.append(f"{c}: only {acc.counters[c]}")
     if acc.counters["scan_model_errors"]:
